@@ -848,34 +848,84 @@ func rootAlloc(v ssa.Value) *ssa.Alloc {
 }
 
 // localsEnv resolves source-level local variable names to current cell values.
-func (st *State) localsEnv(scope func() *ssa.BasicBlock) func(string) (Val, bool) {
+func (st *State) localsEnv(env *SpecEnv) func(string) (Val, bool) {
 	fr := st.fr
+	eng := st.ctx.eng
+	tname := func(a *ssa.Alloc) string {
+		return types.TypeString(a.Type(), func(p *types.Package) string { return p.Name() })
+	}
 	return func(name string) (Val, bool) {
-		var sb *ssa.BasicBlock
-		if scope != nil {
-			sb = scope()
-		}
-		// among the live variables of that name, the most recently created one
+		sb := env.scope
+		// among the live variables that match, the most recently created one
 		// (innermost scope / current loop) wins
-		var best *ssa.Alloc
-		bestCell := -1
-		for v, rv := range fr.regs {
-			a, ok := v.(*ssa.Alloc)
-			if !ok || a.Comment != name || rv.P == nil {
-				continue
-			}
-			if sb != nil && a.Block() != nil && a.Block().Parent() == sb.Parent() && !a.Block().Dominates(sb) {
-				continue // declared in a block that does not dominate the clause's program point: not in scope
-			}
-			id := 0
-			if rv.P.Kind == pkCell {
-				if _, live := st.cells[rv.P.Cell]; !live {
+		pick := func(match func(a *ssa.Alloc) bool) *ssa.Alloc {
+			var best *ssa.Alloc
+			bestCell := -1
+			for v, rv := range fr.regs {
+				a, ok := v.(*ssa.Alloc)
+				if !ok || rv.P == nil || !match(a) {
 					continue
 				}
-				id = rv.P.Cell
+				if sb != nil && a.Block() != nil && a.Block().Parent() == sb.Parent() && !a.Block().Dominates(sb) {
+					continue // declared in a block that does not dominate the clause's program point: not in scope
+				}
+				id := 0
+				if rv.P.Kind == pkCell {
+					if _, live := st.cells[rv.P.Cell]; !live {
+						continue
+					}
+					id = rv.P.Cell
+				}
+				if best == nil || id > bestCell {
+					best, bestCell = a, id
+				}
 			}
-			if best == nil || id > bestCell {
-				best, bestCell = a, id
+			return best
+		}
+		best := pick(func(a *ssa.Alloc) bool { return a.Comment == name })
+		offset := int64(0)
+		// the variable this identifier of this clause denoted when /verif/bindings.json was
+		// made: used when the name is gone, or now names a variable of another kind
+		if rec := eng.recordedFingerprint(fr.fn, env.clause, name); rec != "" {
+			want, wantType := rec, ""
+			if i := strings.Index(rec, "|"); i >= 0 {
+				want, wantType = rec[:i], rec[i+1:]
+			}
+			fps := eng.allocFingerprints(fr.fn)
+			isCounter := func(fp string) bool {
+				return strings.HasPrefix(fp, "rangeindex:") || strings.HasPrefix(fp, "counter:")
+			}
+			retry := best == nil
+			if best != nil && fps[best] != want {
+				if isCounter(want) && (isCounter(fps[best]) || best.Comment == "rangeindex") {
+					retry = true
+				} else if wantType != "" && tname(best) != wantType {
+					retry = true
+				}
+			}
+			if retry {
+				alt := pick(func(a *ssa.Alloc) bool { return fps[a] == want && (wantType == "" || tname(a) == wantType) })
+				if alt == nil {
+					if cp := counterpart(want); cp != "" {
+						alt = pick(func(a *ssa.Alloc) bool { return fps[a] == cp })
+						if alt != nil {
+							// at a loop head and at the end of an iteration an explicit unit counter is one
+							// ahead of the hidden index of a range loop; inside the body and after the loop they agree
+							atCut := env.what == "invariant" || env.what == "decreases" || strings.HasPrefix(env.what, "iteration")
+							if atCut {
+								if strings.HasPrefix(want, "rangeindex:") {
+									offset = -1
+								} else {
+									offset = 1
+								}
+							}
+						}
+					}
+				}
+				if alt != nil {
+					st.ctx.note("contract name %q in %s bound by definition (%s) to variable %q (see /verif/bindings.json)", name, funcKey(fr.fn), want, alt.Comment)
+					best = alt
+				}
 			}
 		}
 		if best == nil {
@@ -890,7 +940,16 @@ func (st *State) localsEnv(scope func() *ssa.BasicBlock) func(string) (Val, bool
 				return Val{}, false
 			}
 		}
-		return st.loadQuiet(pv.P, nil), true
+		if eng.recording != nil {
+			if fp := eng.allocFingerprints(fr.fn)[best]; fp != "" {
+				eng.recordBinding(fr.fn, env.clause, name, fp+"|"+tname(best))
+			}
+		}
+		v := st.loadQuiet(pv.P, nil)
+		if offset != 0 && len(v.L) == 1 && v.L[0].Sort == SInt {
+			v = Val{T: v.T, L: []Term{Add(v.L[0], I(offset))}}
+		}
+		return v, true
 	}
 }
 
@@ -924,7 +983,7 @@ func (st *State) specEnv(what string) *SpecEnv {
 			env.freeVars[fv.Name()] = r.P
 		}
 	}
-	env.locals = st.localsEnv(func() *ssa.BasicBlock { return env.scope })
+	env.locals = st.localsEnv(env)
 	return env
 }
 
